@@ -320,7 +320,14 @@ type decRes struct {
 func decodeMsg(mi msgInfo, in []byte) (res decRes, obj interface{}) {
 	obj = mi.New()
 	meth := reflect.ValueOf(obj).MethodByName("Decode" + mi.Name)
-	buf := append([]byte{}, in...)
+	// the input is a window into a larger array (as a NAS PDU inside a received packet is): the octets
+	// after the window are a sentinel that the decoder must not touch either
+	big := make([]byte, len(in)+16)
+	copy(big, in)
+	for i := len(in); i < len(big); i++ {
+		big[i] = 0xa5
+	}
+	buf := big[:len(in)]
 	var err error
 	var ms0, ms1 runtime.MemStats
 	runtime.ReadMemStats(&ms0)
@@ -347,6 +354,12 @@ func decodeMsg(mi msgInfo, in []byte) (res decRes, obj interface{}) {
 	}
 	if !bytes.Equal(buf, in) {
 		res.class += "+inputmodified"
+	}
+	for i := len(in); i < len(big); i++ {
+		if big[i] != 0xa5 {
+			res.class += "+inputmodified"
+			break
+		}
 	}
 	return
 }
@@ -464,7 +477,17 @@ func run(r *hk.Run) {
 		}
 		// C10: input not modified
 		if strings.Contains(cls, "inputmodified") {
-			fail(r, "C10", site, "input-modified", hk.Hex(in), "decoder wrote to the input bytes")
+			fail(r, "C10", site, "input-modified", hk.Hex(in), "decoder wrote to the input bytes (or to the octets that follow them in the caller's array)")
+		}
+		if prop == "C10" {
+			// the same with a slice that has no spare capacity (a write through a bytes.Buffer then lands elsewhere)
+			ex := make([]byte, len(in))
+			copy(ex, in)
+			objX := m.New()
+			hk.Catch(func() { reflect.ValueOf(objX).MethodByName("Decode" + m.Name).Call([]reflect.Value{reflect.ValueOf(&ex)}) })
+			if !bytes.Equal(ex, in) {
+				fail(r, "C10", site, "input-modified", hk.Hex(in), "decoder wrote to the input bytes: "+hk.Hex(ex))
+			}
 		}
 		if !strings.HasPrefix(cls, "ok") {
 			return
@@ -542,7 +565,7 @@ func run(r *hk.Run) {
 	wantDec := prop == "C01" || prop == "C03" || prop == "C04" || prop == "C10"
 	wantEnc := prop == "C02" || prop == "C04" || prop == "C10" || prop == "C03"
 	wantDisp := prop == "C05" || prop == "C01" || prop == "C10"
-	lean := prop == "C03" || prop == "C10" // these need accepted inputs, not every truncation
+	lean := prop == "C03" // needs accepted inputs, not every truncation (C10 quantifies over rejected inputs too)
 	decStreams := func() {
 		// S1 corpus: the repository's own vectors, through the message decoders
 		for _, dir := range []string{"GmmMessage", "GsmMessage"} {
@@ -571,7 +594,7 @@ func run(r *hk.Run) {
 			base := m.mandatory(r.Rng, true)
 			decCase("directed", m, base, true)
 			for k := 0; k < len(base); k++ { // every truncation of the mandatory part
-				if lean || (quick && k%3 != 0 && k != len(base)-1) {
+				if lean {
 					continue
 				}
 				decCase("directed", m, base[:k], false)
@@ -782,7 +805,7 @@ func run(r *hk.Run) {
 	}
 	// ---- C04 metamorphic stream on the implementation alone: the unordered part is a table lookup
 	// (last duplicate wins, unknown identifier octets are skipped, order is irrelevant)
-	if prop == "C04" {
+	if prop == "C04" || prop == "C03" { // C03: the same inputs feed its decode / re-encode / re-decode oracle
 		sameDecode := func(kind string, m msgT, in, ref []byte) {
 			decCase("meta-"+kind, m, in, true)
 			a, _ := decodeMsg(m.msgInfo, in)
@@ -914,6 +937,47 @@ func run(r *hk.Run) {
 				encCase("wf-directed", m, alone, true)
 				if k > 0 {
 					encCase("wf-directed", m, prefix, true)
+				}
+			}
+		}
+	}
+	// directed lengths: every element that carries a length, at the boundaries of its range and around
+	// the one-octet / two-octet limits, in an otherwise minimal well-formed message
+	if wantEnc {
+		for _, m := range msgs {
+			for si, s := range m.slots {
+				if !s.HasLen {
+					continue
+				}
+				mn, mx, set := s.lenRange()
+				cands := map[int]bool{mn: true, mn + 1: true, mx - 1: true, mx: true, (mn + mx) / 2: true, 127: true, 128: true, 255: true, 256: true, 257: true}
+				for _, x := range set {
+					cands[x] = true
+				}
+				var ls []int
+				for l := range cands {
+					if s.lenOK(l) && (s.isBuf || l <= s.cap) && (l <= 3000 || !quick) {
+						ls = append(ls, l)
+					}
+				}
+				sort.Ints(ls)
+				for _, l := range ls {
+					mv := make([]*ie, len(m.slots))
+					base := wfMessage(r.Rng, m, true, true)
+					for i, t := range m.slots {
+						if t.Mand || i == si {
+							mv[i] = base[i]
+						}
+					}
+					e := mv[si]
+					e.Len = uint16(l)
+					if s.isBuf {
+						e.Oct = r.Rng.Bytes(s.contentLen(l))
+					} else if s.cap > 0 {
+						e.Oct = make([]byte, s.cap)
+						copy(e.Oct, r.Rng.Bytes(s.contentLen(l)))
+					}
+					encCase("wf-lengths", m, mv, true)
 				}
 			}
 		}
